@@ -135,7 +135,8 @@ def run(R):
     quick = R.tier == 'quick'
     R.rule = ('cases = (validator set with real Ed25519 keys and a weight class, signature list built by an operator: honest subsets at / just below / just above '
               'two thirds, duplicates, foreign signer, signature over another block id / without the magic / by the right key for another message, bit-flipped '
-              'signature, invalid entry first/middle/last, empty); expected verdict from an independent predicate (R7: distinct known signers, all signatures '
+              'signature, signature of the wrong length (0/1/32/63/65/128 bytes), invalid entry first/middle/last, empty; then the same keys with other weights '
+              'or permuted weights in the next call); expected verdict from an independent predicate (R7: distinct known signers, all signatures '
               'verify with PyNaCl, 3*signed > 2*total, non-empty); distinct = distinct (weights, signer list, operator); non-trivial = at least one signature')
     R.assumptions = ['a signature list that contains a duplicate but whose distinct signers alone exceed 2/3 is not judged (the property can be read either way)',
                      'validator sets with two members sharing one public key are not generated', 'Ed25519 verification by PyNaCl is trusted']
@@ -160,7 +161,7 @@ def run(R):
                 def judge(op, sigs):
                     return judge_for(op, sigs, blk)
 
-                def judge_for(op, sigs, the_blk):
+                def judge_for(op, sigs, the_blk, world=world, nodes=nodes, weights=weights, wname=wname):
                     want, reason = r7(world, sigs, the_blk.root_hash, the_blk.file_hash)
                     st, e = mon.call(check_block_signatures, list(nodes), [dict(s) for s in sigs], the_blk)
                     got = 'accept' if st == 'ok' else 'reject'
@@ -224,6 +225,14 @@ def run(R):
                     if len(chosen) > 1:
                         k2 = chosen[(j + 1) % len(chosen)]
                         misattributed = {'node_id_short': node_id(world.pubs[k]).hex(), 'signature': world.keys[k2].sign(msg).signature}
+                    good = honest[j]['signature']
+                    malformed = [('signature-empty', b''), ('signature-truncated-63', good[:63]), ('signature-65-bytes', good + b'\x00'),
+                                 ('signature-32-bytes', good[:32]), ('signature-doubled-128', good + good), ('signature-1-byte', good[:1])]
+                    for bname, sgn in (rng.sample(malformed, 2) if quick else malformed):
+                        bad = dict(honest[j], signature=sgn)
+                        judge(f'{bname}-replaces:' + sname, honest[:j] + [bad] + honest[j + 1:])
+                        judge(f'{bname}-added:' + sname, honest + [dict(bad, node_id_short=honest[j]['node_id_short'])] if rng.random() < 0.5 else [bad] + honest)
+                        R.count('malformed_signature_cases', 2)
                     bads = [('foreign-signer', foreign), ('other-root-hash', other_root), ('other-file-hash', other_file), ('root-file-swapped', swapped),
                             ('no-magic', no_magic), ('other-message', other_msg), ('bit-flipped', flipped), ('wrong-key-right-id', wrong_key)]
                     if misattributed:
@@ -236,6 +245,27 @@ def run(R):
                         lst = [bad] + rest if pos == 'first' else rest + [bad] if pos == 'last' else rest[:len(rest) // 2] + [bad] + rest[len(rest) // 2:]
                         judge(f'{bname}-replaces-{pos}:' + sname, lst)
                         judge(f'{bname}-added-{pos}:' + sname, [bad] + honest if pos == 'first' else honest + [bad])
+                # ---- the same keys with other weights / in another order right afterwards: a verdict depends on the arguments of the call only
+                if n >= 2:
+                    alts = [('reversed', weights[::-1]), ('complemented', [max(weights) + 1 - w for w in weights]),
+                            ('one-takes-all', [sum(weights) * 3 + 1 if i == n - 1 else 1 for i in range(n)])]
+                    for aname, w2 in alts:
+                        world2 = World.__new__(World)
+                        world2.keys, world2.pubs, world2.weights, world2.total = world.keys, world.pubs, list(w2), sum(w2)
+                        nodes2 = world2.nodes(rng)
+                        for sname, chosen in subsets_near_threshold(rng, world2):
+                            judge_for(f'same-keys-reweighted-{aname}:' + sname, [sig(i) for i in chosen], blk, world2, nodes2, list(w2), wname + '/' + aname)
+                            R.count('reweighted_cases')
+                    perm = list(range(n))
+                    rng.shuffle(perm)
+                    world3 = World.__new__(World)
+                    world3.keys, world3.pubs = [world.keys[i] for i in perm], [world.pubs[i] for i in perm]
+                    world3.weights, world3.total = list(weights), sum(weights)          # the weights stay in place: every key gets another one
+                    nodes3 = world3.nodes(rng)
+                    for sname, chosen in subsets_near_threshold(rng, world3):
+                        s3 = [{'node_id_short': node_id(world3.pubs[i]).hex(), 'signature': world3.keys[i].sign(msg).signature} for i in chosen]
+                        judge_for('same-keys-permuted:' + sname, s3, blk, world3, nodes3, list(weights), wname + '/permuted')
+                        R.count('reweighted_cases')
                 R.cover('set_sizes', n)
                 R.cover('weight_classes', wname)
     # ---- 64-bit weights whose signed share misses / passes two thirds by a handful of units (exact integer arithmetic decides)
@@ -265,6 +295,8 @@ def run(R):
                              'seeds': [bytes(k).hex() for k in world.keys], 'root': root, 'file': fileh, 'reason': reason, 'weight_class': 'knife-edge'})
             R.case(mon.fp('knife', e, tuple(weights), tuple(signers)))
     R.floor('knife_edge_cases', 10)
+    R.floor('reweighted_cases', 100)
+    R.floor('malformed_signature_cases', 50)
     R.floor('verdict_accept', 40)
     R.floor('verdict_reject', 300)
     R.floor('reasons', 6, 'set')
